@@ -419,7 +419,7 @@ def run(ctx):
         r = json.load(open(ctx.replay))
         reqs = r.get("requests") or [r["request"]]
         rc, impl, err = run_bin(xh, reqs, env=henv, timeout=60)
-        ctx.note("replay impl: %s" % impl)
+        ctx.note("replay impl: %s" % [x[:300] for x in impl])
         if reqs[0].startswith("rd ") and len(reqs) > 1:
             if rc != 0 or len(set(impl)) != 1:
                 ctx.violation("chunk-dependence", dict(r, impl=impl))
@@ -850,6 +850,12 @@ def run(ctx):
         "small byte strings incl. ill-formed ones and long surrogate-pair runs; document level: 22 constructs x 4 encodings "
         "x 3 boundaries x 7 offsets (seeded subset in quick), each parsed one-shot from memory and through 3-8 chunkings "
         "(1 byte at a time, random sizes, split just before the end), LocalFileInputSource and StdInInputSource, plus external "
-        "DTD subsets / external general entities carrying the construct and served through the same chunkings; a case is "
+        "DTD subsets / external general entities carrying the construct and served through the same chunkings; 14 reference templates (general entity references, internal "
+        "and external, in content and in attribute values; character references; parameter-entity references inside "
+        "<!ATTLIST, inside a content model, inside an entity value and between declarations) in the document entity, an "
+        "external DTD subset and an external parameter entity, padded so that '&'/'%', the name and the ';' each fall on "
+        "offsets -3..+3 around kCharBufSize and 2*kCharBufSize characters of the CONTAINING entity -- the dump must be equal "
+        "to the 5-character-padding variant (padding runs collapsed; padding ends with a line feed) and to a chunked parse; "
+        "a case is "
         "non-trivial when it raises an exception, returns a negative answer or normalises a line end; distinct by request")
     ctx.coverage["exhaustive"] = False
